@@ -7,7 +7,8 @@ SPEC = {
         "nullable_roundtrip", "nullable_preserves", "maybeIndef_roundtrip", "kvp_roundtrip",
         "maybeIndef_preserves_partial", "kvp_preserves_partial", "full_pres_containers_fails_at_witness",
         "tagwrap_roundtrip", "cborwrap_roundtrip", "zeroOrOne_roundtrip", "set_roundtrip",
-        "orderPreservingProperties_roundtrip", "emptyMap_roundtrip",
+        "orderPreservingProperties_roundtrip", "emptyMap_roundtrip", "anycbor_captures_one_item", "skip_never_diverges",
+        "byDatatype_dispatch_single", "byDatatype_dispatch_many",
     ],
     "streams": [
         {"name": "minicbor", "quick": 1500, "thorough": 150000},
@@ -31,7 +32,7 @@ SPEC = {
         "encoding does not start with f6/f7; sequence elements never encode to something starting with the break byte; lengths < 2^64",
         "equality of KeepRaw values is equality of content (the raw bytes are a cache of the encoding: empty after From<T>, the input span after decode)",
     ],
-    "explanation": "self-tests run on the pallas worktree: (break) KeepRaw::deref_mut without clear_raw -> VIOLATION keepraw-mut; (break) "
-                   "MaybeIndefArray::Indef encoded through the Vec encoder -> VIOLATION pres-loss structure / rt-mismatch; (harmless) Cow::from(vec![]) -> "
-                   "Cow::Borrowed(&[]) in clear_raw -> quiet.",
+    "explanation": "self-tests run on the pallas worktree (then reverted): (break) KeepRaw::deref_mut without clear_raw -> exit 1, VIOLATION "
+                   "replay cborwrap-viol-keepraw-mut (mutated content encodes as 83010203 but the wrapper wrote 9f0102ff); (harmless) clear_raw with "
+                   "Cow::Borrowed(&[]) + other error texts -> exit 0, quiet; unchanged tree -> exit 0 with the KNOWN-FINDING line.",
 }
